@@ -119,6 +119,17 @@ func init() {
 		}
 		return Tuple{cell, Iface{}}
 	})
+	// Conf.Validate as seen from core's API edit functions (C12): an arbitrary verdict. Which edits are
+	// invalid is not the subject there; that the running configuration survives any verdict is.
+	reg("(*"+modPathConst+"/internal/conf.Conf).Validate", func(m *Machine, fr *frame, a []Value) Value {
+		if fr.caller == nil || fr.caller.fn.Pkg == nil || !strings.HasSuffix(fr.caller.fn.Pkg.Pkg.Path(), "/internal/core") {
+			return notIntrinsic{}
+		}
+		if m.branch(m.freshVar("conf.Validate.rejects", 0), "conf.Validate verdict") {
+			return m.newError(fr, MkStr("invalid configuration"))
+		}
+		return Iface{}
+	})
 	reg("(*"+modPathConst+"/internal/auth.Manager).pullJWTJWKS", func(m *Machine, fr *frame, a []Value) Value {
 		return Tuple{zero(fr.fn.Signature.Results().At(0).Type()), Iface{}}
 	})
